@@ -69,7 +69,7 @@ pub fn streams(thorough: bool) -> Report {
     use std::time::Duration;
     let mut r = Report::new(
         "child processes (sh) writing O bytes 'o' to stdout and E bytes 0xE9 (not valid UTF-8) to stderr for O, E in {0, 1, 100, 70000, 300000} (up to ~5 pipe buffers) in 4 patterns (stderr first, stdout first, 20 alternating slices, both at once from two background jobs) and exiting with status 7, run through output_and_write_streams and spawn_and_write_streams with Vec writers: the call returns within the watchdog time (no deadlock), the returned output and the supplied writers each hold exactly the bytes of their stream, the exit status is passed on; non-trivial = runs where a stream exceeds one pipe buffer",
-        if thorough { "5 x 5 volumes x 4 patterns x 2 entry points, watchdog 12 s" } else { "5 x 5 volumes x 4 patterns (output_and_write_streams), large volumes also spawn_and_write_streams; watchdog 12 s" },
+        if thorough { "5 x 5 volumes x 4 patterns x 2 entry points, watchdog 12 s + 48 s" } else { "5 x 5 volumes x 4 patterns (output_and_write_streams), large volumes also spawn_and_write_streams; watchdog 12 s + 48 s" },
     );
     let vols = [0usize, 1, 100, 70_000, 300_000];
     let mut blocked = 0;
@@ -96,10 +96,13 @@ pub fn streams(thorough: bool) -> Report {
             };
             let _ = tx.send((res.map_err(|e| e.to_string()), wo, we));
         });
-        match rx.recv_timeout(Duration::from_secs(12)) {
+        // a deadlock never ends; a slow machine does: after the first 12 s the same run is given another 48 s before it counts as blocked
+        let first = rx.recv_timeout(Duration::from_secs(12));
+        let outcome = match first { Ok(x) => Ok(x), Err(_) => rx.recv_timeout(Duration::from_secs(48)) };
+        match outcome {
             Err(_) => {
                 blocked += 1;
-                r.violation("stream_returns", "the call returns once both streams close, whatever the volume and interleaving (watchdog expired: deadlock)", input, "returns".into(), "still blocked after 12 s".into());
+                r.violation("stream_returns", "the call returns once both streams close, whatever the volume and interleaving (watchdog expired: deadlock)", input, "returns".into(), "still blocked after 60 s".into());
                 let _ = Command::new("pkill").args(["-P", &std::process::id().to_string()]).status();   // unblock the leaked thread's child
             }
             Ok((Err(e), _, _)) => r.violation("stream_runs", "running the child failed", input, "Ok".into(), e),
